@@ -54,7 +54,7 @@ def run(ck):
     for l in direct_fail:
         # direct ownership FAIL case=<id> ... / direct reencode FAIL case=<id> ...
         clause = ("ownership" if (l.startswith("direct ownership") or l.startswith("direct stream_ownership"))
-                  else "no_panic" if l.startswith("direct type_new") else "reencodable")
+                  else "no_panic" if l.startswith("direct type_new") else "spec_equiv" if l.startswith("direct spec_equiv") else "reencodable")
         k = l.split("case=", 1)[1].split(" ", 1)[0] if "case=" in l else None
         ck.fail_input(clause, l, ([case_of(k)] if k else []) + [l])
         witnessed = True
@@ -90,6 +90,7 @@ def run(ck):
                "Inputs: fixed corpus (repository test vectors, D1-D3 witnesses), all 1- and 2-byte strings, valid encodings of structured "
                "random packets of all 14 types with every prefix, every single-bit flip, byte/16-bit edits at every position, "
                "remaining-length edits and non-minimal encodings, all 16 flag and type nibbles, deletions, duplications, splices, "
-               "type x flags x varint-shape headers, random bytes, packets at the 127/128, 16383/16384 and 65535 boundaries; "
+               "type x flags x varint-shape headers, random bytes, packets at the 127/128, 16383/16384 and 65535 boundaries; hand-built PUBLISHes at every "
+               "remaining-length width boundary up to 2097151/2097152 through DetectPacket, Publish.Decode and packet.Decoder (agreement, next packet intact); "
                "thorough adds all 3-byte strings, all header shapes, 8x the structured set. "
                "distinct_nontrivial = distinct (type, buffer) pairs whose header declares an extent")
